@@ -414,8 +414,9 @@ def run_check(prop: str, tier: str) -> int:
             )
             continue
         if entry is not None:
-            known_hit.append(entry["what"])
-            lines.append(f"KNOWN-FINDING: property={prop} {entry['what']}")
+            if entry["what"] not in known_hit:
+                known_hit.append(entry["what"])
+                lines.append(f"KNOWN-FINDING: property={prop} {entry['what']}")
         else:
             replays.append(path)
             lines.append(
